@@ -172,7 +172,7 @@ impl PushCondition {
                     None => return false,
                 };
 
-                value.matches_pattern(&context.user_display_name, true)
+                value.contains_word(&context.user_display_name)
             }
             Self::RoomMemberCount { is } => is.contains(&context.member_count),
             Self::SenderNotificationPermission { key } => {
@@ -303,6 +303,13 @@ trait StrExt {
     /// If `match_words` is `true`, checks that the pattern is separated from other words.
     fn matches_pattern(&self, pattern: &str, match_words: bool) -> bool;
 
+    /// Whether this string contains `word`, with word boundaries.
+    ///
+    /// `word` is literal text, not a glob: `*` and `?` only match themselves.
+    ///
+    /// The match is case insensitive.
+    fn contains_word(&self, word: &str) -> bool;
+
     /// Matches this string against `pattern`, with word boundaries.
     ///
     /// The pattern can be a glob with wildcards `*` and `?`.
@@ -312,6 +319,11 @@ trait StrExt {
     ///
     /// The match is case sensitive.
     fn matches_word(&self, pattern: &str) -> bool;
+
+    /// Implementation of `matches_word`.
+    ///
+    /// If `has_wildcards` is `false`, `*` and `?` in the pattern are treated as literal characters.
+    fn matches_word_impl(&self, pattern: &str, has_wildcards: bool) -> bool;
 
     /// Translate the wildcards in `self` to a regex syntax.
     ///
@@ -358,15 +370,21 @@ impl StrExt for str {
         }
     }
 
+    fn contains_word(&self, word: &str) -> bool {
+        self.to_lowercase().matches_word_impl(&word.to_lowercase(), false)
+    }
+
     fn matches_word(&self, pattern: &str) -> bool {
+        self.matches_word_impl(pattern, pattern.contains(['?', '*']))
+    }
+
+    fn matches_word_impl(&self, pattern: &str, has_wildcards: bool) -> bool {
         if self == pattern {
             return true;
         }
         if pattern.is_empty() {
             return false;
         }
-
-        let has_wildcards = pattern.contains(['?', '*']);
 
         if has_wildcards {
             let mut chunks: Vec<String> = vec![];
@@ -446,7 +464,7 @@ impl StrExt for str {
                         None => return false,
                     };
 
-                    word_str[word..].matches_word(pattern)
+                    word_str[word..].matches_word_impl(pattern, false)
                 }
                 None => false,
             }
